@@ -33,7 +33,7 @@ def ell_task(cone, W, slack_kind, tier):
     # concrete validation first: when the real code already disagrees with the oracle on samples, the
     # symbolic exploration still runs (for the evidence) but with short solver timeouts
     pre = {"violations": []}
-    nval = _validate(W, 10 if tier == "quick" else 40, pre)
+    nval = _validate(W, (30 if K > m else 12) if tier == "quick" else 60, pre)
     ex = Explorer(f"ell_is_dominated[{cone},{slack_kind}]", query_timeout_ms=15000 if pre["violations"] else 90000,
                   fork_check=False, witness_timeout_ms=20000)
 
@@ -65,8 +65,8 @@ def ell_task(cone, W, slack_kind, tier):
         in1 = lambda z: ell_member(T1z, c1z, a1.e, z)  # noqa
         in2 = lambda z: ell_member(T2z, c2z, a2.e, z)  # noqa
         if ret:
-            if len(probs) != K:
-                raise HarnessError(f"{len(probs)} programs solved on a True path, expected {K}")
+            # (fewer than K programs on a True path is not an error of the harness: the soundness obligation below
+            #  then lacks the lower-bound fact of the skipped facets and is refuted unless the code is still right)
             x = [ctx.fresh("ox") for _ in range(m)]
             y = [ctx.fresh("oy") for _ in range(m)]
             for p in probs:
@@ -163,13 +163,20 @@ def _validate(W, n, r):
     rng = np.random.RandomState(6)
     K, m = W.shape
     ok = 0
-    for _ in range(n):
+    for it in range(n + 2 * K):
         def rT():
             A = rng.uniform(-1, 1, (m, m))
             return A @ A.T + np.eye(m) * 0.5
         c1 = rng.uniform(-1, 1, m)
         # second centre placed roughly along the cone axis so that both outcomes occur
-        c2 = c1 + rng.uniform(-0.5, 3) * np.linalg.pinv(W) @ np.ones(K)
+        # second centre along a randomly perturbed interior direction of the cone, so that each facet is the deciding
+        # one in some samples (incl. facets with index ≥ m of K > m cones) and both outcomes occur
+        c2 = c1 + rng.uniform(-0.5, 3) * np.linalg.pinv(W) @ (np.ones(K) + rng.uniform(-1.2, 1.2, K))
+        if it >= n:
+            # targeted: facet (it − n) mod K is the only one asked to fail, every other facet to hold comfortably
+            g = np.ones(K) * 3.0
+            g[(it - n) % K] = -1.5
+            c2 = c1 + np.linalg.pinv(W) @ g
         fj = lambda v: frac_json([Fraction(float(x)) for x in v])  # noqa
         case = {"kind": "ell", "cone": "validation", "W": W.tolist(),
                 "T1": frac_json([[Fraction(float(x)) for x in row] for row in rT()]),
